@@ -206,21 +206,22 @@ macro_rules! index_iter_unit {
     };
 }
 // quick: masks <= 24 bits
-// (not yet run to completion under load: thorough until confirmed)
+// (confirmed OK once under 3-5x machine load, 650-2350 s there: thorough until re-measured)
 // @unit name=bit_index_iter_0_24 props=C19,C03 kind=bounded tier=thorough bound=mask=24_bits_at_offset_0 fns=BitIndexIterator::new,BitIndexIterator::next timeout=3000 mem=5
 index_iter_unit!(bit_index_iter_0_24, BitIndexIterator, 0, 24, 3, 25);
-// @unit name=bit_index_iter_5_20 props=C19,C03 kind=bounded bound=mask=20_bits_at_offset_5 fns=BitIndexIterator::new,BitIndexIterator::next timeout=3000 mem=5
+// (confirmed OK under load: 356 s / 544 s: thorough until re-measured)
+// @unit name=bit_index_iter_5_20 props=C19,C03 kind=bounded tier=thorough bound=mask=20_bits_at_offset_5 fns=BitIndexIterator::new,BitIndexIterator::next timeout=3000 mem=5
 index_iter_unit!(bit_index_iter_5_20, BitIndexIterator, 5, 20, 4, 21);
-// (not yet run to completion under load: thorough until confirmed)
-// @unit name=bit_index_iter_59_10 props=C19,C03 kind=bounded tier=thorough bound=mask=10_bits_at_offset_59_(crosses_the_64-bit_edge) fns=BitIndexIterator::new,BitIndexIterator::next timeout=3000 mem=5
+// @unit name=bit_index_iter_59_10 props=C19,C03 kind=bounded bound=mask=10_bits_at_offset_59_(crosses_the_64-bit_edge) fns=BitIndexIterator::new,BitIndexIterator::next timeout=3000 mem=5
 index_iter_unit!(bit_index_iter_59_10, BitIndexIterator, 59, 10, 9, 11);
-// (not yet run to completion under load: thorough until confirmed)
+// (confirmed OK once under 3-5x machine load, 650-2350 s there: thorough until re-measured)
 // @unit name=bit_index_u32_iter_5_20 props=C19,C03 kind=bounded tier=thorough bound=mask=20_bits_at_offset_5 fns=BitIndexU32Iterator::new,BitIndexU32Iterator::next timeout=3000 mem=5
 index_iter_unit!(bit_index_u32_iter_5_20, BitIndexU32Iterator, 5, 20, 4, 21);
-// (not yet run to completion under load: thorough until confirmed)
+// (confirmed OK once under 3-5x machine load, 650-2350 s there: thorough until re-measured)
 // @unit name=bit_index_u32_iter_59_10 props=C19,C03 kind=bounded tier=thorough bound=mask=10_bits_at_offset_59_(crosses_the_64-bit_edge) fns=BitIndexU32Iterator::new,BitIndexU32Iterator::next timeout=3000 mem=5
 index_iter_unit!(bit_index_u32_iter_59_10, BitIndexU32Iterator, 59, 10, 9, 11);
-// thorough: 70-bit mask at offset 3 (two words: prefix + suffix), every content
+// thorough: 70-bit mask at offset 3 (two words: prefix + suffix), every content.
+// NOT CONFIRMED: all three 3_70 units hit the 3000 s timeout (one was killed at the 10 GB cap) at 3-5x machine load.
 // @unit name=bit_index_iter_3_70 props=C19,C03 kind=bounded bound=mask=70_bits_at_offset_3 fns=BitIndexIterator::new,BitIndexIterator::next tier=thorough timeout=3000 mem=6
 index_iter_unit!(bit_index_iter_3_70, BitIndexIterator, 3, 70, 10, 71);
 // @unit name=bit_index_u32_iter_3_70 props=C19,C03 kind=bounded bound=mask=70_bits_at_offset_3 fns=BitIndexU32Iterator::new,BitIndexU32Iterator::next tier=thorough timeout=3000 mem=6
@@ -271,13 +272,13 @@ macro_rules! slice_iter_unit {
         }
     };
 }
-// (not yet run to completion under load: thorough until confirmed)
+// (confirmed OK once under 3-5x machine load, 650-2350 s there: thorough until re-measured)
 // @unit name=bit_slice_iter_0_24 props=C19,C03 kind=bounded tier=thorough bound=mask=24_bits_at_offset_0 fns=BitSliceIterator::new,BitSliceIterator::next,BitSliceIterator::advance_to_set_bit timeout=3000 mem=5
 slice_iter_unit!(bit_slice_iter_0_24, 0, 24, 3, 13);
-// @unit name=bit_slice_iter_5_20 props=C19,C03 kind=bounded bound=mask=20_bits_at_offset_5 fns=BitSliceIterator::new,BitSliceIterator::next,BitSliceIterator::advance_to_set_bit timeout=3000 mem=5
+// (confirmed OK once under load in 491 s, 4 GB; timed out at 3000 s in the full pass next to two other heavy units: thorough until re-measured)
+// @unit name=bit_slice_iter_5_20 props=C19,C03 kind=bounded tier=thorough bound=mask=20_bits_at_offset_5 fns=BitSliceIterator::new,BitSliceIterator::next,BitSliceIterator::advance_to_set_bit timeout=3000 mem=5
 slice_iter_unit!(bit_slice_iter_5_20, 5, 20, 4, 11);
-// (not yet run to completion under load: thorough until confirmed)
-// @unit name=bit_slice_iter_59_10 props=C19,C03 kind=bounded tier=thorough bound=mask=10_bits_at_offset_59_(a_run_may_cross_the_64-bit_edge) fns=BitSliceIterator::new,BitSliceIterator::next,BitSliceIterator::advance_to_set_bit timeout=3000 mem=5
+// @unit name=bit_slice_iter_59_10 props=C19,C03 kind=bounded bound=mask=10_bits_at_offset_59_(a_run_may_cross_the_64-bit_edge) fns=BitSliceIterator::new,BitSliceIterator::next,BitSliceIterator::advance_to_set_bit timeout=3000 mem=5
 slice_iter_unit!(bit_slice_iter_59_10, 59, 10, 9, 6);
 // @unit name=bit_slice_iter_3_70 props=C19,C03 kind=bounded bound=mask=70_bits_at_offset_3 fns=BitSliceIterator::new,BitSliceIterator::next,BitSliceIterator::advance_to_set_bit tier=thorough timeout=3000 mem=6
 slice_iter_unit!(bit_slice_iter_3_70, 3, 70, 10, 36);
@@ -292,7 +293,7 @@ slice_iter_unit!(bit_slice_iter_3_70, 3, 70, 10, 36);
 // positions with b_i set, ascending (all of 0..len when null_count == 0, none when
 // null_count == len), up to and including the first position where f fails; the result is that
 // Err, or Ok when f never fails. Probe formulation as for BitIndexIterator.
-// (not yet run to completion under load: thorough until confirmed)
+// NOT CONFIRMED: timed out at 3000 s under 3-5x machine load (try_for_each drives the iterator in a loop, so unwind(13) unwinds the inner chunk loop 13 times per item).
 // @unit name=try_for_each_valid_idx_3_10 props=C19 kind=bounded bound=len=10_offset=3 fns=try_for_each_valid_idx tier=thorough timeout=3000
 #[kani::proof]
 #[kani::unwind(13)]
